@@ -17,13 +17,10 @@ import (
 	"bytes"
 	"context"
 	"crypto/md5"
-	"database/sql"
 	"encoding/hex"
 	"errors"
 	"fmt"
 	"io"
-	"os"
-	"path/filepath"
 	"strconv"
 	"strings"
 	"sync"
@@ -50,6 +47,7 @@ type c08Want struct {
 }
 
 type c08Conc struct {
+	ms      *c08sEnv // three part stores, GLACIER -> s1, DEEP_ARCHIVE -> s2
 	env     *c09Env
 	st      storage.Storage
 	mu      sync.Mutex
@@ -135,11 +133,43 @@ func (c *c08Conc) worker(w int, r *Rng, nops int, ws *c08WorkerState) {
 		}
 		c.fail(fmt.Sprintf("worker %d: %s on its own key failed: %v", w, what, err))
 	}
+	classes := []*string{nil, nil, c08sPtr("STANDARD_IA"), c08sPtr("GLACIER"), c08sPtr("GLACIER"), c08sPtr("DEEP_ARCHIVE")}
+	putOpts := func() *storage.PutObjectOptions {
+		if cl := classes[r.Intn(len(classes))]; cl != nil {
+			return &storage.PutObjectOptions{StorageClass: cl}
+		}
+		return nil
+	}
+	// a cross-store (or same-store) transition of one of this worker's objects: the bytes must not change
+	transition := func() {
+		cl := "STANDARD"
+		if p := classes[r.Intn(len(classes))]; p != nil {
+			cl = *p
+		}
+		if len(vers) > 0 && r.Bool() {
+			v := vers[r.Intn(len(vers))]
+			if err := st.TransitionObjectStorageClass(ctx, bV, storage.MustNewObjectKey(v.key), cl, &storage.TransitionObjectStorageClassOptions{VersionID: &v.vid}); err != nil {
+				opErr("transition of own version", err)
+			}
+			return
+		}
+		key := ownKeys[r.Intn(2)]
+		if _, ok := cur[key]; !ok {
+			return
+		}
+		if err := st.TransitionObjectStorageClass(ctx, bU, storage.MustNewObjectKey(key), cl, nil); err != nil {
+			opErr("transition of own key", err)
+		}
+	}
 	for n := 0; n < nops; n++ {
+		if r.Chance(18) {
+			transition()
+			continue
+		}
 		switch k := r.Intn(100); {
 		case k < 22: // put / overwrite own key
 			key, b := ownKeys[r.Intn(2)], body()
-			if _, err := st.PutObject(ctx, bU, storage.MustNewObjectKey(key), nil, bytes.NewReader(b), nil, nil); err != nil {
+			if _, err := st.PutObject(ctx, bU, storage.MustNewObjectKey(key), nil, bytes.NewReader(b), nil, putOpts()); err != nil {
 				opErr("put", err)
 			} else {
 				cur[key] = b
@@ -160,7 +190,7 @@ func (c *c08Conc) worker(w int, r *Rng, nops int, ws *c08WorkerState) {
 			}
 		case k < 58: // new version in the versioned bucket
 			key, b := fmt.Sprintf("vk%d", r.Intn(3)), body()
-			res, err := st.PutObject(ctx, bV, storage.MustNewObjectKey(key), nil, bytes.NewReader(b), nil, nil)
+			res, err := st.PutObject(ctx, bV, storage.MustNewObjectKey(key), nil, bytes.NewReader(b), nil, putOpts())
 			if err != nil {
 				opErr("versioned put", err)
 			} else if res.VersionID == nil {
@@ -185,7 +215,7 @@ func (c *c08Conc) worker(w int, r *Rng, nops int, ws *c08WorkerState) {
 			dst := ownKeys[r.Intn(2)]
 			if len(vers) > 0 && r.Bool() {
 				v := vers[r.Intn(len(vers))]
-				if _, err := st.CopyObject(ctx, bV, storage.MustNewObjectKey(v.key), bU, storage.MustNewObjectKey(dst), &storage.CopyObjectOptions{SourceVersionID: &v.vid}); err != nil {
+				if _, err := st.CopyObject(ctx, bV, storage.MustNewObjectKey(v.key), bU, storage.MustNewObjectKey(dst), &storage.CopyObjectOptions{SourceVersionID: &v.vid, StorageClass: classes[r.Intn(len(classes))]}); err != nil {
 					opErr("copy of own version", err)
 				} else {
 					cur[dst] = v.content
@@ -307,16 +337,13 @@ func (c *c08Conc) check(when string) {
 			}
 		}
 	}
-	_ = c.env.query("SELECT DISTINCT part_id FROM parts", func(r *sql.Rows) error {
-		var id string
-		if err := r.Scan(&id); err != nil {
-			return err
+	if sn, err := c.ms.snap(); err != nil {
+		c.fail(when + ": snapshot: " + err.Error())
+	} else {
+		for _, m := range sn.safety() {
+			c.fail(when + ": " + m)
 		}
-		if _, err := os.Stat(filepath.Join(c.env.partsDir, c09FileOf(id))); err != nil {
-			c.fail(fmt.Sprintf("%s: part %s is referenced by a part row but its file is gone", when, id))
-		}
-		return nil
-	})
+	}
 }
 
 func (c *c08Conc) run(seed uint64, workers, nops, rounds int) {
@@ -389,8 +416,10 @@ func (c *c08Conc) run(seed uint64, workers, nops, rounds int) {
 		}
 	}
 	c.check("after quiescence and two GC runs")
-	if s, _, _ := c.env.converged(); len(s) > 0 {
-		c.fail("after quiescence: " + s[0])
+	if sn, err := c.ms.snap(); err == nil {
+		for _, m := range sn.reclaimed() {
+			c.fail("after quiescence: " + m)
+		}
 	}
 }
 
@@ -422,6 +451,12 @@ func (p *c08Prop) Gen(r *Rng, tier string, n int) []string {
 	out := make([]string, n)
 	for i := range out {
 		g := r.Fork()
+		if i%4 < 2 {
+			// sequential multi-store history with cross-store transitions of sharers (harness/c08s.go), diffed
+			// against Model/MetaGcStores.v
+			out[i] = c08sGen(g)
+			continue
+		}
 		if i%4 == 3 {
 			// sequential sharing scenario (objects whose part list repeats one deduplicated part id, several copies,
 			// deletes in random order, read-back after each) followed by collector runs: same engine as C09, the
@@ -439,6 +474,9 @@ func (p *c08Prop) Gen(r *Rng, tier string, n int) []string {
 func (p *c08Prop) Run(in string, scratch string) Result {
 	toks := strings.SplitN(in, " ", 2)
 	f := strings.Split(toks[0], ":")
+	if strings.HasPrefix(in, "ms ") {
+		return c08sRunLine(in, scratch)
+	}
 	if f[0] != "conc" || len(f) != 5 {
 		// a purely sequential GC line (corpus): same engine as C09
 		return (&c09Prop{}).Run(in, scratch)
@@ -447,12 +485,13 @@ func (p *c08Prop) Run(in string, scratch string) Result {
 	workers, _ := strconv.Atoi(f[2])
 	nops, _ := strconv.Atoi(f[3])
 	rounds, _ := strconv.Atoi(f[4])
-	env, err := c09Open(scratch, true, c09Grace, nil)
+	ms, err := c08sOpen(scratch, c09Grace)
 	if err != nil {
 		return Result{Out: "SETUP-ERROR " + err.Error(), Oracle: "FAIL:setup " + err.Error()}
 	}
-	defer env.meta.close()
-	c := &c08Conc{env: env, st: env.meta.st, wants: map[string]*c08Want{}, nShared: 2}
+	defer ms.close()
+	env := ms.c9
+	c := &c08Conc{ms: ms, env: env, st: ms.st, wants: map[string]*c08Want{}, nShared: 2}
 	c.run(seed, workers, nops, rounds)
 	out := "conc"
 	tags := []string{"concurrent", fmt.Sprintf("workers-%d", workers)}
